@@ -21,6 +21,16 @@ _WIP = "check not built yet in this session (design in DESIGN.md section 6); not
 NOT_APPLICABLE = {("C%02d" % i): _WIP for i in range(1, 21)}
 
 PROPS = {
+    "C05": {
+        "engine": "c05", "monitors": ["mon"],
+        "engine_timeout": {"quick": 900, "thorough": 7200},
+        "technique": "Coq proof (invariants over all traces of the list-join and deferred-group transition systems; pinned commit refuted) + cancellation-point enumeration on generated probe servers with hang and goroutine-leak detection",
+        "level_text": "PARTIAL. Theorems over every trace (any length, worker limit, cancellation instant, interleaving of loop and workers): once every started closure has returned wg.Wait() is enabled, and the loop is never stuck before that; in every cancelled quiescent state no deferred-group goroutine remains, whatever the consumer asked for; both pinned-commit behaviours are refuted by witnesses. Real time and real goroutine liveness cannot be carried by a theorem: every check enumerates cancellation points (before dispatch, on entry of the k-th resolver) x consumer {drain, stop after first payload} x worker_limit {0,1,2,8} on probe servers generated from the current templates and requires that the response function returns and that no goroutine with a generated-code or gqlgen frame is alive after cancellation. Transports are represented by their consumer behaviour, not run as HTTP/websocket servers here.",
+        "level_note": "Trusted: Coq kernel + vm_compute; harness (hang = no return within 1.5 s; leak = runtime.Stack scan up to 80 ms after cancel); x/sync semaphore semantics (Acquire fails at once on a done context) are modelled.",
+        "trusted": ["x/sync/semaphore.Acquire fails immediately on a done context (v0.13 source), modelled",
+                    "the universal resolver returns promptly when its context is cancelled, as the property assumes of resolvers"],
+        "assumptions": ["wall-clock bounds and goroutine liveness are observed, not proved", "SSE / multipart-mixed / websocket transports are represented by 'drain' and 'stop after k' consumers"],
+    },
     "C06": {
         "engine": "c06", "monitors": ["c06"], "finding_checks": {"montn": "typed-nil-in-abstract-position"},
         "engine_timeout": {"quick": 900, "thorough": 7200},
